@@ -202,7 +202,11 @@ def handleTopK (c : Case) (hdr : List String) : CaseOut := Id.run do
                 stat "k_gt_len" (if k > xs.length then 1 else 0)]
   let expected := (Sorting.isort xs).take k
   match implBroken c.impl with
-  | some w => return { model := model, verdict := .fail s!"top_k of {xs.length} items, k={k}: implementation {w}", stats := stats }
+  | some w =>
+    -- top_k reserves room for 2k items before it looks at the input: for k far beyond the input length
+    -- the allocation fails (abort / capacity overflow / 2*k overflow) although the answer is just sort(xs)
+    let tag := if k ≥ 2 ^ 31 && xs.length < k then "[D19-topk-2k-allocation] " else ""
+    return { model := model, verdict := .fail s!"{tag}top_k of {xs.length} items, k={k}: implementation {w}", stats := stats }
   | none => pure ()
   let line := c.impl.getD 0 ""
   match (field line "out").bind parseCsvI with
